@@ -17,12 +17,3 @@ Proof. intros Ht Hp. unfold rel_stm. expose_stm. interval with (i_taylor t, i_bi
 Lemma S69 t p : 750 <= t <= 800 -> 1000000 <= p <= 10000000 -> rel_stm t p <= 1 / 100.
 Proof. intros Ht Hp. unfold rel_stm. expose_stm. interval with (i_taylor t, i_bisect p, i_depth 14, i_degree 5). Qed.
 
-Lemma S15 t p : 250 <= t <= 300 -> 50000 <= p <= 100000 -> rel_stm t p <= 1 / 100.
-Proof. intros Ht Hp. unfold rel_stm. expose_stm. interval with (i_bisect t, i_bisect p, i_depth 14). Qed.
-
-Lemma S35 t p : 450 <= t <= 500 -> 50000 <= p <= 100000 -> rel_stm t p <= 1 / 100.
-Proof. intros Ht Hp. unfold rel_stm. expose_stm. interval with (i_bisect t, i_bisect p, i_depth 14). Qed.
-
-Lemma S55 t p : 650 <= t <= 700 -> 50000 <= p <= 100000 -> rel_stm t p <= 1 / 100.
-Proof. intros Ht Hp. unfold rel_stm. expose_stm. interval with (i_bisect t, i_bisect p, i_depth 14). Qed.
-
